@@ -200,7 +200,23 @@ def m_addr(I, ctx, callee, args, crate):
     if meth == "is_empty":
         v = I.deref(ctx, args[0])
         return (len(v.items) if isinstance(v, VecV) else bin_len(ctx, v)) == 0
+    if meth in ("to_base64", "from_base64"):
+        import base64
+        v = I.deref(ctx, args[0])
+        if meth == "to_base64" and isinstance(v, VecV) and all(isinstance(b, int) for b in v.items):
+            return base64.b64encode(bytes(v.items)).decode()
+        if meth == "to_base64" and isinstance(v, VecV): raise Unsupported("base64 text of symbolic bytes")
+        if meth == "from_base64" and isinstance(v, str):
+            try: return Ok(VecV(list(base64.b64decode(v, validate=True))))
+            except Exception: return Err(EnumV("StdError", "InvalidBase64", ()))
+        if meth == "from_base64": return Ok(v)
     return I.deref(ctx, args[0])
+
+
+@M.on(r"^(cosmwasm_std::)?(testing::)?(MemoryStorage|MockStorage)::(new|default)$|^<(cosmwasm_std::)?(testing::)?(MemoryStorage|MockStorage) as Default>::default$")
+def m_mem_storage(I, ctx, callee, args, crate):
+    # the key-value store is ctx.storage (typed tables per namespace); the handle itself carries nothing
+    return Opaque("storage")
 
 
 @M.on(r"^(cosmwasm_std::)?(coins|coin|Coin::new|attr|has_coins)$")
